@@ -77,6 +77,12 @@ func dialerUpgradeRules(c *Ctx, prop string) {
 			return errChoice(cl.M, "flush.err", "flush-error")
 		}
 		m.Models["(*bufio.Reader).Buffered"] = func(cl *fold.Call) fold.Val {
+			if len(cl.Args) > 0 {
+				if _, isNil := cl.Args[0].(fold.Nil); isNil {
+					// (*bufio.Reader)(nil).Buffered() dereferences the receiver
+					cl.M.Emit(fold.Effect{Kind: "call", Name: "nil-reader-used"})
+				}
+			}
 			cl.M.Emit(fold.Effect{Kind: "call", Name: "Buffered", Args: cl.Args})
 			if cl.M.Choose("buffered", 2) == 1 {
 				return fold.Int{Lo: 1, Hi: 1 << 20, Name: "buffered"}
@@ -215,6 +221,10 @@ func dialerUpgradeRules(c *Ctx, prop string) {
 		desc := fmt.Sprintf("[status line %d; headers %s; %s]", p.Chose("statusline"), scriptName(script), atomSummaryAll(p))
 		if len(p.Calls("readLine-past-blank-line")) > 0 {
 			problems = append(problems, "the header loop reads past the blank line "+desc)
+			continue
+		}
+		if len(p.Calls("nil-reader-used")) > 0 {
+			problems = append(problems, "the clean-up calls Buffered() on a nil reader (the named result was set to nil before the deferred function ran): the dialer panics on this response "+desc)
 			continue
 		}
 		if gotErr != wantErr {
